@@ -50,9 +50,11 @@ JsonEntryOK(j, e) ==
     /\ j.summary = JoinStr(e.summary, "\n")
     /\ j.total_mins = EntryMins(e) /\ j.total = FormatMins(EntryMins(e))
     /\ BagEq(j.tags, TagStrs(TagsOfLines(e.summary)))
-    /\ e.kind = "dur" => ~j.has_start /\ ~j.has_end
-    /\ e.kind = "open" => j.has_start /\ ~j.has_end /\ j.start_mins = e.a /\ j.start = FormatTime(e.a, e.sh12)
-    /\ e.kind = "range" => /\ j.has_start /\ j.has_end /\ j.start_mins = e.a /\ j.end_mins = e.b
+    /\ e.kind = "dur" => ~j.has_start /\ ~j.has_end /\ ~j.has_start_mins /\ ~j.has_end_mins
+    /\ e.kind = "open" => /\ j.has_start /\ j.has_start_mins /\ ~j.has_end /\ ~j.has_end_mins
+                          /\ j.start_mins = e.a /\ j.start = FormatTime(e.a, e.sh12)
+    /\ e.kind = "range" => /\ j.has_start /\ j.has_end /\ j.has_start_mins /\ j.has_end_mins
+                           /\ j.start_mins = e.a /\ j.end_mins = e.b
                            /\ j.start = FormatTime(e.a, e.sh12) /\ j.end = FormatTime(e.b, e.eh12)
 JsonRecordOK(j, r) ==
     /\ j.date = FormatDate(r.date.ord, r.date.dashes)
